@@ -32,6 +32,7 @@ type c13member struct {
 	ackPos                 map[int]uint64
 	ackInOpen              map[int]uint64
 	savesAtClose           int
+	pendingAtClose         int  // checkpoint write requests in flight when Close() was called
 	endBeforeStop          bool // a stream ended (transiently) after Close() was called and before the stream stop began
 	nondocPos              map[int]uint64
 	inAck                  map[int]bool
@@ -76,6 +77,8 @@ func checkC13Rules(run *Run, res *Result) {
 	pendingCkpt := map[int]int{} // member -> checkpoint write requests in flight
 	inConsume := map[int]int{}
 	anyFault := false
+	hardFault := false // a fault other than an error reply to a single request
+	lastErrN := 0
 	lastConsEnd := map[int]int64{}
 	stopN := map[int]int{}         // member -> event number of its last BeforeStreamStop
 	fileAfterStop := map[int]int{} // member -> the checkpoint file was rewritten after the stream had been stopped
@@ -100,6 +103,11 @@ func checkC13Rules(run *Run, res *Result) {
 			}
 			if e.S != "slowconsumer" {
 				anyFault = true // a stalled connection or an in-flight faulted save outlives the instant it was injected
+			}
+			if strings.HasPrefix(e.S, "err:") || e.S == "delay" {
+				lastErrN = e.N // an error status replied to one request / one reply held back: over once that request is answered
+			} else if e.S != "slowconsumer" {
+				hardFault = true
 			}
 		case journal.KConn:
 			mm := get(e.M)
@@ -279,6 +287,7 @@ func checkC13Rules(run *Run, res *Result) {
 			mm.quietClose = !mm.rebalancing && (mm.pubs == 0 || mm.lastPubT+cfg.RebalanceDelay+1_000_000_000 < e.T) &&
 				(mm.lastBRST == 0 || mm.lastBRST+cfg.RebalanceDelay+1_000_000_000 < e.T)
 			mm.savesAtClose = openCommits[e.M]
+			mm.pendingAtClose = pendingCkpt[e.M]
 			mm.closeInRebalance = mm.rebalancing
 			switch {
 			case mm.rebalancing && streamClosedWindow[e.M]:
@@ -314,7 +323,13 @@ func checkC13Rules(run *Run, res *Result) {
 			if e.T-from > bound+int64(mm.savesAtClose)*cfg.CkptTimeout {
 				res.violate("C13", "R1-shutdown-too-slow", e.N, "plain", "member %d: Start() returned %s after Close() was called and the last running ConsumeEvent had returned (bound %s)", e.M, fmtDur(e.T-from), fmtDur(bound))
 			}
-			if cfg.CkptType == "auto" && !cfg.ReadOnly && !anyFault {
+			// judged when no fault can reach into the shutdown: none at all, or only error replies whose saves had failed
+			// and finished before Close() was called (the marks are put back; the shutdown's own save has to store them)
+			errsOver := lastErrN > 0 && !hardFault && lastErrN < mm.closeN && mm.pendingAtClose == 0 && mm.savesAtClose == 0 && !cfg.HealthCheck
+			if errsOver {
+				res.probe("close-after-a-failed-save")
+			}
+			if cfg.CkptType == "auto" && !cfg.ReadOnly && (!anyFault || errsOver) {
 				var vbs []int
 				for vb := range mm.ackPos {
 					vbs = append(vbs, vb)
